@@ -106,7 +106,7 @@ const char* const kStartName[] = {"ToFuture()", "ToFuture(e)", "Get()", "Detach(
                                   "returned from a continuation", "co_await", "Await(task)"};
 const char* const kModeName[] = {"ThenInline", "Then(e)", "Then()"};
 const char* const kSigName[] = {"value", "Result", "error", "exception_ptr"};
-const char* const kRetName[] = {"plain", "Result", "throws|plain", "Future", "SharedFuture(Split)", "Task(MakeTask)",
+const char* const kRetName[] = {"plain", "Result", "throws|plain", "Future", "SharedFuture(Split)", "Task(MakeTask|Schedule(e))",
                                  "Task(coroutine)", "Future(coroutine)"};
 constexpr int kRetN = 8;
 
@@ -159,6 +159,7 @@ MRes ModelProduce(Model& m, const Step& s, int in, bool wvoid, int* ctx) {
     case 2:
       return s.par % 2 == 0 ? MRes{1, 0, out} : MRes{0, ov, 0};
     case 3:
+    case 5:  // Future: MakeFuture | Run(e); Task: MakeTask | Schedule(e)
       ++m.constructs;
       if (s.par % 2 == 0) {
         return {0, ov, 0};
@@ -240,6 +241,13 @@ auto Produce(Ctx& c, const Step& s, int in) {
       return yaclib::Split(yaclib::MakeFuture<W, TErr>(out));
     }
   } else if constexpr (Ret == 5) {
+    if (s.par % 2 == 1) {
+      // a lazy head on one of the two executors (possibly the one this step itself runs on, possibly refusing by now):
+      // flattening starts it, its Submit is the executor's decision exactly as for the eager Run above
+      return yaclib::Schedule<TErr>(c.ex[s.par / 2 % 2], [out] {
+        return Val<W>(out);
+      });
+    }
     if constexpr (std::is_void_v<W>) {
       return yaclib::MakeTask<void, TErr>();
     } else {
@@ -311,8 +319,13 @@ yaclib::Future<void, TErr> CoStartVoid(yaclib::Task<void, TErr> t) {
   co_return{};
 }
 template <typename V>
-yaclib::Future<V, TErr> CoAwaitStart(yaclib::Task<V, TErr> t) {
+yaclib::Future<V, TErr> CoAwaitStart(yaclib::Task<V, TErr> t, bool keep) {
   co_await Await(t);
+  if (keep) {
+    // the Result is read in place; the Task that already completed dies with the frame ("just releases its result")
+    R<V> r = std::as_const(t).Touch();
+    co_return r;
+  }
   co_return std::move(t).Touch();
 }
 
@@ -395,7 +408,7 @@ void Finish(H h, Ctx& c) {
           return FinishEager(CoStartInt(std::move(h)), c);
         }
       default:
-        return FinishEager(CoAwaitStart<V>(std::move(h)), c);
+        return FinishEager(CoAwaitStart<V>(std::move(h), c.start_exec == 1), c);
     }
   } else {
     FinishEager(std::move(h), c);
@@ -947,6 +960,9 @@ class PipeFamily final : public vf::Family {
     s += b;
     if (p.source >= kMakeTask) {
       s += p.abandon ? " ABANDONED" : std::string(" start=") + kStartName[p.start] + "(e" + std::to_string(p.start_exec + 1) + ")";
+      if (!p.abandon && p.start == kAwait && p.start_exec == 1) {
+        s += "[completed Task read in place and destroyed]";
+      }
     }
     s += " steps=[";
     for (auto& st : p.prog) {
